@@ -41,21 +41,21 @@ Theorem C32_ascii_charset_is_ascii :
   /\ unicode_vertical <> [] /\ unicode_horizontal <> [].
 Proof. split; [vm_compute; reflexivity|]. repeat split; discriminate. Qed.
 
-(* a single-line 7-bit label drawn where it fits is afterwards a contiguous part of its row *)
+(* a single-line label (any runes) drawn where it fits is afterwards a contiguous part of its row *)
 Theorem C32_draw_label_visible :
   forall (g : grid) (x y : Z) (label : str) (row : list str),
-    index g y = Ok row -> 0 <= x < len row -> x + len label <= len row -> ascii_line label ->
+    index g y = Ok row -> 0 <= x < len row -> x + len label <= len row -> single_line label ->
     exists g' row', draw_label g x y label = Ok g' /\ index g' y = Ok row' /\ sublist_b label (concat row') = true.
 Proof. exact draw_label_visible. Qed.
 
-(* ... which fails for labels with a multi-byte rune that is not the last one: DrawLabel uses the
-   byte offset of each rune as its column ("é!" on a fresh 10 x 1 canvas becomes "é !") *)
-Theorem C32_draw_label_multibyte_gap_refuted :
-  exists (g : grid) (x y : Z) (label : str) (row : list str),
-    new 10 1 = Ok g /\ index g y = Ok row /\ 0 <= x < len row /\ x + len label <= len row /\
-    exists g' row', draw_label g x y label = Ok g' /\ index g' y = Ok row' /\ sublist_b label (concat row') = false.
+(* HISTORICAL, repaired by c3c83ee52: the loop the pinned commit used (byte offset of each rune as
+   its column, Model.draw_line_pinned) printed "é!" on a fresh 10 x 1 canvas as "é !" *)
+Theorem C32_pinned_draw_line_multibyte_gap_refuted :
+  exists (g : grid) (line : str) (row : list str),
+    new 10 1 = Ok g /\ index g 0 = Ok row /\ len line <= len row /\
+    exists g' row', draw_line_pinned g 0 0 0 line = Ok g' /\ index g' 0 = Ok row' /\ sublist_b line (concat row') = false.
 Proof.
-  exists [repeat space 10], 0, 0, [233%N; 33%N], (repeat space 10).
+  exists [repeat space 10], [233%N; 33%N], (repeat space 10).
   repeat split; try reflexivity; try (vm_compute; congruence).
   eexists. eexists. repeat split; vm_compute; reflexivity.
 Qed.
@@ -63,11 +63,11 @@ Qed.
 (* non-vacuity of the hypotheses of C32_draw_label_visible *)
 Example C32_visible_hyps_satisfiable :
   exists g row, new 12 3 = Ok g /\ index g 1 = Ok row /\ 0 <= 2 < len row /\ 2 + len [104; 105]%N <= len row
-                /\ ascii_line [104; 105]%N.
+                /\ single_line [104; 105]%N.
 Proof.
   eexists. eexists. split; [vm_compute; reflexivity|]. split; [vm_compute; reflexivity|].
   split; [vm_compute; split; congruence|]. split; [vm_compute; congruence|].
-  intros r [<-|[<-|[]]]; split; vm_compute; congruence.
+  intros r [<-|[<-|[]]]; vm_compute; congruence.
 Qed.
 Example C32_to_byte_array_hyps_satisfiable : ascii_vertical <> [] /\ ascii_horizontal <> [].
 Proof. split; discriminate. Qed.
@@ -77,4 +77,4 @@ Print Assumptions C32_to_byte_array_total.
 Print Assumptions C32_new_crashes_iff.
 Print Assumptions C32_ascii_charset_is_ascii.
 Print Assumptions C32_draw_label_visible.
-Print Assumptions C32_draw_label_multibyte_gap_refuted.
+Print Assumptions C32_pinned_draw_line_multibyte_gap_refuted.
